@@ -370,7 +370,7 @@ def shared_arrays(shared):
 
 
 def w_purity_determinism(ctx, rng, i):
-    sps = int(rng.choice([4, 8, 16]))
+    sps = int(rng.choice([4, 8, 16, 5, 7]))            # odd slot lengths too
     with core.quiet():
         T.gv.clean()
         T.gv(sps=sps, R=float(rng.choice([1e9, 1e10])), N=int(rng.choice([16, 64])), Vpi=5.0)
@@ -383,6 +383,7 @@ def w_purity_determinism(ctx, rng, i):
     ctx.describe(function=name, sps=sps, numpy_seed=seed)
     np.random.seed(seed)
     st0 = np.random.get_state()
+    core.poison_small_blocks(i)
     before = [core.digest(a) for a in arrs]
     g0 = gv_snapshot()
     _trap["writes"] = []
@@ -413,6 +414,7 @@ def w_purity_determinism(ctx, rng, i):
     d1 = result_digest(r1)
     with core.quiet():
         np.random.set_state(st0)
+        core.poison_small_blocks(i + 1)          # the repeat runs on differently filled free memory: a result that reads memory it never wrote differs
         r2 = fn()
     ctx.check("det.same_state", result_digest(r2) == d1, f"{name}: repeating the call under the same numpy RNG state gives a different result")
     consumed = not (st1[0] == st0[0] and np.array_equal(st1[1], st0[1]) and st1[2:] == st0[2:])
